@@ -86,7 +86,7 @@ pred("isSense", "LPFisSense(const char* s)", [],
 pred("isColName", "LPFisColName(const char* s)", [S_isColName],
      [{"name": "nul_is_name", "slice": "LPFisColName.inc", "find": "return false;", "replace": "return true;"},
       {"name": "upper", "slice": "LPFisColName.inc", "find": "(*s <= 'Z')", "replace": "(*s < 'Z')"}],
-     {"STRCHR_LIT": ""}, unwind=24)
+     {"STRCHR_LIT": ""})
 pred("isInfinity", "LPFisInfinity(const char* s)", [S_isInfinity],
      [{"name": "index", "slice": "LPFisInfinity.inc", "find": "tolower(s[3]) == 'f'", "replace": "tolower(s[4]) == 'f'"},
       {"name": "noshortcircuit", "slice": "LPFisInfinity.inc", "find": "&& (tolower(s[2]) == 'n')", "replace": "& (tolower(s[2]) == 'n')"}])
@@ -245,7 +245,6 @@ instances.append({
          ],
          "assigns": ["i", "*gpp_pos", "__CPROVER_object_whole(name)"], "decreases": "%s - %s" % (S_OFF, POS_OFF)},
     ],
-    "unwind": 12, "unwind_loops": STRCHR_LIT_UNWIND,
     "min_obligations": 100,
     "tier": "thorough",
     "mutants": [
@@ -321,7 +320,7 @@ unit = {
         "atof, NameSet::number/num/add and LPColSetBase::add are ghost-recording stubs: they record the bytes they are handed at the ghost indices and return unconstrained values (NameSet::number assumed to return -1..num()-1, its documented range)",
         "logging dropped: SPX_MSG_WARNING expands to nothing, SPxOut::debug is an empty stub; assert() compiled out (NDEBUG semantics)",
         "line buffer capped at CAP=%d bytes (> SOPLEX_LPF_MAX_LINE_LEN); loop contracts are inductive, the cap bounds the object size only" % CAP,
-        "complete unwinding (with unwinding assertions) instead of a loop contract: the copy loop of LPFreadValue (bounded by the line length <= CAP; pos == line there), every loop of LPFhasKeyword (bounded by the length of the constant keyword literal), strchr on string literals (bounded by the literal)",
+        "complete unwinding (with unwinding assertions) instead of a loop contract: the copy loop of LPFreadValue (bounded by the line length <= CAP; pos == line there), every loop of LPFhasKeyword (bounded by the length of the constant keyword literal), (strchr on string literals is written out loop-free for literals of up to 24 characters, asserted)",
         "LPFreadInfinity is proved against the contract of its callee LPFhasKeyword (pos stays inside the line and does not move backwards), which the hasKeyword_inf instance proves for the literal \"inf[inity]\"",
         "R = double; `infinity` is SOPLEX_DEFAULT_INFINITY extracted from spxdefines.h",
     ],
